@@ -365,7 +365,7 @@ func runC02(c *Ctx) {
 		"C02.e action bodies: collect/param/put/oscPut append the byte to their buffer; clear resets intermediates, params and final; execute emits C0",
 		"C02.f a slice stored into a delivered sequence is replaced by fresh storage before the parser continues (payloads are never altered after delivery)",
 	}
-	c.NotDec = []string{"numeric decoding of parameters (csiDispatch/hook arithmetic)", "grapheme clustering and width in print", "invalid UTF-8 fallback in readRune", "independence from read chunking"}
+	c.NotDec = []string{"numeric decoding of parameters (csiDispatch/hook arithmetic)", "grapheme clustering and width in print", "the value delivered for an invalid byte beyond the conditions of C02.o and C02.p (which byte is re-read, bytes above 0x7F mapped to runes)", "independence from read chunking beyond C02.o"}
 	c.expect("C02.a", 1500)
 	c.expect("C02.b", 10)
 	c.expect("C02.c", 15)
